@@ -97,7 +97,11 @@ XLIST = {
         ("c04.p9", {"P9": "S13"}, {"S13": "the size a reply header announces is the size of what follows it, so a peer framing by the header stays in step (C04/P9)"}),
         ("c05.v5", {"V5": "S12"}, {"S12": "a receive never runs past the buffer of the message being read into the bytes of the next message (C05/V5)"}),
     ],
+    "C05": [
+        ("c02.d1d2", {"D2": "V6"}, {"V6": "each value the validator checked reaches the handler parameter it was checked for (an address checked for the available ring's alignment is not handed over as the used ring's): handler arguments are the named fields of the validated body (C02/D2)"}),
+    ],
     "C10": [
+        ("c08.loops", {"S2": ("L20", has("recv_into_iovec_all", "recv_data", "recv_into_bufs"))}, {"L20": "a reply arriving in several segments is reassembled at the running offset, so the read ends having consumed exactly the reply's bytes: the caller neither blocks holding the lock nor takes bytes of the next caller's reply (C08/S2)"}),
         ("c01.w1", {"W1": ("L19", has("Gpu", "VhostUserU64", "VhostUserVringState", "VhostUserConfig", "VhostUserInflight", "VhostUserLog", "VhostUserMemory"))}, {"L19": "reply structures have the specified size: a reply is read completely, nothing of it is left for the next caller (C01/W1)"}),
         ("c05.v1", {"V1": ("L18", has("vringfd"))}, {"L18": "a well-formed notifier request is decoded, not refused before its acknowledgement (the caller waits holding the lock) (C05/V1)"}),
         ("c03.r1r2", {"R1": ("L16", has("GET_CONFIG"))}, {"L16": "a reply never carries more than its header announces: no stray bytes are left for the next caller (C03/R1)"}),
